@@ -672,6 +672,14 @@ def thread_variants(f):
     for st in order:
         b = copy.deepcopy(blocks[st[0]])
         b['i'] = state_id[st]
+        # the function's own result taken from a spliced return place whose variant is known on this path: say so, so that the
+        # exit is classified as the success / error exit it is
+        run = st[1]
+        for s_ in b['stmts']:
+            if s_['k'] == 'assign' and s_['place']['l'] == 0 and not s_['place']['p'] and s_['rv']['k'] == 'use' and _plain(s_['rv']['op']) \
+                    and run and run[0] == 'v' and s_['rv']['op']['place']['l'] == run[1]:
+                s_['known_variant'] = run[2]
+            run = transfer_stmt(s_, run)
         t = b['term']
         es = edges[st]
         tgt = {e[0]: state_id[(e[1], e[2])] for e in es}
